@@ -60,7 +60,7 @@ class RoundTrip(Oracle):
 
     def gen(self, rng, tier, scale=1.0):
         L = []
-        for i in range(self.n(tier, 120, 4000, scale)):
+        for i in range(self.n(tier, 500, 4000, scale)):
             m, ig = gen_case(rng)
             if i % 2:
                 ig.edp = 0.0
@@ -102,7 +102,11 @@ class RoundTrip(Oracle):
             return None                       # module rejected: not a case for this oracle
         r = r[1:]
         if rc(r[2]) != 0 or rc(r[3]) != 0:
-            return None                       # generator produced an invalid instance (counted by C02)
+            # the instance is valid by construction: a rejection is either a generator defect or libyang rejecting valid data
+            # (C02). It is not judged here, but counted: check.py fails the oracle when more than 5 % of the cases are skipped,
+            # so that a parser defect cannot hide every case of its kind from the round-trip comparison
+            self.skipped = getattr(self, "skipped", 0) + 1
+            return None
         nexpl = int(r[4])
         if r[5] != r[6]:
             if self.strip_meta(r[5]) == self.strip_meta(r[6]) and self.metas(r[5]) == self.metas(r[6]):
@@ -257,7 +261,7 @@ class StdReaders(Oracle):
 
     def gen(self, rng, tier, scale=1.0):
         L = []
-        for i in range(self.n(tier, 150, 5000, scale)):
+        for i in range(self.n(tier, 500, 5000, scale)):
             m, ig = gen_case(rng, adversarial=True, meta_prob=0.15)
             f = ig.forest(m)
             s = Script()
@@ -467,7 +471,7 @@ class Diff(Oracle):
 
     def gen(self, rng, tier, scale=1.0):
         L = []
-        for i in range(self.n(tier, 150, 6000, scale)):
+        for i in range(self.n(tier, 600, 6000, scale)):
             plain = (self.family == "plain")
             m, ig = gen_case(rng, userord=not plain, state=not plain, meta_prob=0.0)
             a = ig.forest(m)
@@ -669,7 +673,7 @@ class MergeDup(Oracle):
 
     def gen(self, rng, tier, scale=1.0):
         L = []
-        for i in range(self.n(tier, 120, 5000, scale)):
+        for i in range(self.n(tier, 500, 5000, scale)):
             m, ig = gen_case(rng, userord=(i % 3 == 0), state=(i % 3 == 0), meta_prob=0.05 if i % 2 else 0.0)
             t = ig.forest(m)
             src = yanggen.cross(rng, t, ig.forest(m), m.nodes) if rng.random() < 0.8 else ig.forest(m)
@@ -789,7 +793,7 @@ class ValidateIdem(Oracle):
 
     def gen(self, rng, tier, scale=1.0):
         L = []
-        for i in range(self.n(tier, 150, 6000, scale)):
+        for i in range(self.n(tier, 600, 6000, scale)):
             m, ig = gen_case(rng, meta_prob=0.0, userord=(i % 2 == 0), state=(i % 3 == 0))
             f = ig.forest(m, config_only=False)
             s = Script()
@@ -946,7 +950,7 @@ class Paths(Oracle):
 
     def gen(self, rng, tier, scale=1.0):
         L = []
-        for i in range(self.n(tier, 100, 4000, scale)):
+        for i in range(self.n(tier, 400, 4000, scale)):
             m, ig = gen_case(rng, adversarial=True, meta_prob=0.0, state=(i % 2 == 0))
             ig.max_inst = 3
             f = ig.forest(m)
@@ -1013,7 +1017,7 @@ class EditHistory(Oracle):
 
     def gen(self, rng, tier, scale=1.0):
         L = []
-        for i in range(self.n(tier, 120, 5000, scale)):
+        for i in range(self.n(tier, 500, 5000, scale)):
             uo = (i % 3 == 0)
             m, ig = gen_case(rng, adversarial=(i % 4 == 0), meta_prob=0.0, userord=uo, state=False)
             ig.max_inst = 6 if i % 2 else 3
